@@ -389,13 +389,22 @@ func TestC14Process(t *testing.T) {
 			d.Script = append(d.Script, drive.Stim{Kind: "answer"})
 		}
 		ne := rapid.IntRange(0, 9).Draw(rt, "events")
+		var evs []drive.Stim
 		for i := 0; i < ne; i++ {
 			k := rapid.IntRange(0, n).Draw(rt, "sym")
 			if k == n {
-				d.Script = append(d.Script, drive.Stim{Kind: "event", Ev: &model.Ev{Kind: "signal", Ref: "zz"}})
+				evs = append(evs, drive.Stim{Kind: "event", Ev: &model.Ev{Kind: "signal", Ref: "zz"}})
 			} else {
-				d.Script = append(d.Script, drive.Stim{Kind: "event", Ev: evFor(d.Defs[k])})
+				evs = append(evs, drive.Stim{Kind: "event", Ev: evFor(d.Defs[k])})
 			}
+		}
+		if ne >= 3 && rapid.IntRange(0, 2).Draw(rt, "backToBack") == 0 {
+			// the whole history delivered back to back from one goroutine (more
+			// events in flight than the catch event's inbox holds): the order is
+			// known, so the outcome is the same as one by one
+			d.Script = append(d.Script, drive.Stim{Kind: "rapid", Burst: evs})
+		} else {
+			d.Script = append(d.Script, evs...)
 		}
 		hash := rec.Hash(d)
 		rec.Begin("TestC14Process", hash, d)
